@@ -299,7 +299,7 @@ func c12Derive(r *lib.Rng, old []byte, maxLen int) ([]byte, string) {
 	nw := append([]byte(nil), old...)
 	var tags []string
 	for k := r.Range(1, 4); k > 0; k-- {
-		switch r.Intn(7) {
+		switch r.Intn(8) {
 		case 0: // point changes (small deltas: add bytes non-zero)
 			for j := r.Range(1, 6); j > 0 && len(nw) > 0; j-- {
 				nw[r.Intn(len(nw))] += byte(r.Range(1, 3))
@@ -333,6 +333,13 @@ func c12Derive(r *lib.Rng, old []byte, maxLen int) ([]byte, string) {
 		case 4: // duplicate
 			nw = append(nw, nw[:r.Intn(len(nw)+1)]...)
 			tags = append(tags, "dup")
+		case 7: // junk in front and a damaged byte near the start: the backward extension runs down to old[0]
+			if len(nw) > 12 {
+				nw[r.Range(2, 5)] ^= byte(r.Range(1, 255))
+				junk := r.Bytes(r.Range(1, 6))
+				nw = append(junk, nw...)
+				tags = append(tags, "headdamage")
+			}
 		case 5: // prefix / suffix
 			if len(nw) > 0 {
 				if r.Bool() {
@@ -374,8 +381,19 @@ func c12Pair(r *lib.Rng, maxLen int) ([]byte, []byte, string) {
 			return r.Range(0, maxLen)
 		}
 	}
-	k := r.Intn(10)
+	k := r.Intn(12)
 	switch {
+	case k == 6:
+		// new = junk + old with one byte near the start damaged: the long match starts after the
+		// damaged byte and its backward extension runs down to old[0]
+		o := r.Bytes(r.Range(16, max(16, min(maxLen-8, 60))))
+		n := append([]byte(nil), o...)
+		n[r.Range(2, 5)] ^= byte(r.Range(1, 255))
+		n = append(r.Bytes(r.Range(1, 6)), n...)
+		if r.Chance(1, 3) {
+			n = n[:len(n)-r.Intn(6)]
+		}
+		return o, n, "headdamage/entropy"
 	case k == 0: // unrelated
 		o, a := c12Content(r, size())
 		n, b := c12Content(r, size())
@@ -398,7 +416,14 @@ func c12Pair(r *lib.Rng, maxLen int) ([]byte, []byte, string) {
 		seg := func(lo, hi int) []byte { return r.Bytes(r.Range(lo, hi)) }
 		P, Q, Z, R := seg(0, 12), seg(6, 24), seg(1, 10), seg(10, 20)
 		Q2 := append([]byte(nil), Q...)
-		for j := r.Range(1, 2); j > 0; j-- {
+		exact := r.Chance(1, 3) // two identical copies: the search has equally long answers in two partitions
+		if exact {
+			// short segments (the pair has to fit 64 bytes); Z longer than R so that the second copy lies in the second half of old
+			P, Q, R = seg(0, 4), seg(10, 13), seg(10, 11)
+			Z = seg(len(R)+2, len(R)+4)
+			Q2 = append([]byte(nil), Q...)
+		}
+		for j := r.Range(1, 2); j > 0 && !exact; j-- {
 			Q2[r.Intn(len(Q2)/2+1)] ^= byte(r.Range(1, 255))
 		}
 		if r.Chance(1, 3) { // damage the first copy instead
@@ -412,11 +437,20 @@ func c12Pair(r *lib.Rng, maxLen int) ([]byte, []byte, string) {
 		if r.Bool() {
 			base = Q2
 		}
+		if exact {
+			// new = W Q V: the copy of Q is found with the same length in both places
+			// with 2 partitions new is scanned in 2 blocks: a long W puts Q into the second block as a whole
+			R = seg(1, 6)
+			P, base = seg(len(Q)+len(R), len(Q)+len(R)+3), Q
+		}
 		for _, x := range [][]byte{P, base, R} {
 			n = append(n, x...)
 		}
 		if len(o) > maxLen || len(n) > maxLen {
 			return o[:min(len(o), maxLen)], n[:min(len(n), maxLen)], "neardup/cut"
+		}
+		if exact {
+			return o, n, "dup2/entropy"
 		}
 		return o, n, "neardup/entropy"
 	default:
@@ -427,8 +461,11 @@ func c12Pair(r *lib.Rng, maxLen int) ([]byte, []byte, string) {
 }
 
 func c12Partitions(r *lib.Rng, oldLen, newLen int, class string) int {
-	if strings.HasPrefix(class, "neardup") && r.Chance(2, 3) {
+	if (strings.HasPrefix(class, "neardup") || strings.HasPrefix(class, "headdamage")) && r.Chance(2, 3) {
 		return r.Intn(2) // one scan block: the overlap structure stays intact
+	}
+	if strings.HasPrefix(class, "dup2") && r.Chance(2, 3) {
+		return 2 // the two copies fall into different partitions of the suffix array
 	}
 	switch r.Intn(8) {
 	case 0:
@@ -454,10 +491,11 @@ type c12Case struct {
 	reuse       bool
 	class       string
 	group       string // bsd | bsdt | ""
+	deadline    int    // seconds, 0 = default
 }
 
 func c12RunDiffCase(c *Ctx, run *c12Runner, cs *c12Case) error {
-	resp, err := run.Do(&c12Req{Old: cs.old, New: cs.nw, Partitions: cs.partitions, Concurrency: cs.concurrency, Procs: cs.procs, Reuse: cs.reuse})
+	resp, err := run.Do(&c12Req{Old: cs.old, New: cs.nw, Partitions: cs.partitions, Concurrency: cs.concurrency, Procs: cs.procs, Reuse: cs.reuse, DeadlineSec: cs.deadline})
 	if err != nil {
 		return err
 	}
@@ -556,6 +594,18 @@ func c12RunDiffCase(c *Ctx, run *c12Runner, cs *c12Case) error {
 	return nil
 }
 
+// c12N: case counts by tier; the search tier (run after a correspondence break) is a wider sample
+// of the cheap classes under other seeds, not the MiB-sized ones
+func c12N(c *Ctx, quick, thorough, search int) int {
+	switch c.Tier {
+	case "quick":
+		return quick
+	case "search":
+		return search
+	}
+	return thorough
+}
+
 func c12FirstDiff(a, b []byte) int {
 	n := min(len(a), len(b))
 	for i := 0; i < n; i++ {
@@ -599,8 +649,11 @@ func c12DiffCases(c *Ctx, run *c12Runner) error {
 	}
 	// exhaustive low end: all (old,new) over {0,1} with both lengths <= L, partitions 0..6
 	L := 4
-	if c.Thorough() {
+	if c.Tier == "thorough" {
 		L = 5
+	}
+	if c.Tier == "search" {
+		L = -1 // seed-independent: already done by the run that triggered the search
 	}
 	for ol := 0; ol <= L; ol++ {
 		for ov := 0; ov < 1<<uint(ol); ov++ {
@@ -621,7 +674,7 @@ func c12DiffCases(c *Ctx, run *c12Runner) error {
 		}
 	}
 	// lengths up to 64 (a few up to 160) over small alphabets / periodic / derived: in-Coq suffix array
-	n := c.N(400, 5000)
+	n := c12N(c, 400, 5000, 3000)
 	for i := 0; i < n; i++ {
 		cr := r.Fork()
 		maxLen := 64
@@ -636,7 +689,7 @@ func c12DiffCases(c *Ctx, run *c12Runner) error {
 		}
 	}
 	// up to 4 KiB: tabulated search
-	n = c.N(32, 400)
+	n = c12N(c, 32, 400, 150)
 	for i := 0; i < n; i++ {
 		cr := r.Fork()
 		maxLen := []int{300, 1024, 4096}[cr.Intn(3)]
@@ -658,23 +711,24 @@ func c12DiffCases(c *Ctx, run *c12Runner) error {
 			piece, _ := c12Derive(cr, o, 4096)
 			nw = append(nw, piece...)
 		}
-		if err := c12RunDiffCase(c, run, &c12Case{old: o, nw: nw, partitions: cr.Intn(2), procs: []int{0, 2, 8}[cr.Intn(3)], class: "big/more-blocks-than-workers"}); err != nil {
+		if err := c12RunDiffCase(c, run, &c12Case{old: o, nw: nw, partitions: cr.Intn(2), procs: []int{0, 2, 8}[cr.Intn(3)], class: "big/more-blocks-than-workers", deadline: 600}); err != nil {
 			return err
 		}
 		o = cr.Bytes(100*1024 + cr.Intn(1000))
 		nw = append([]byte(nil), o...)
-		d := byte(cr.Range(1, 255))
 		for j := 10000; j < 10000+40000+cr.Intn(20000); j++ {
-			nw[j] += d
+			if cr.Chance(1, 8) { // sparse changes: the region stays one add string with non-zero bytes
+				nw[j] += byte(cr.Range(1, 255))
+			}
 		}
 		nw = append(nw[:70000], nw[70000+cr.Intn(500):]...)
-		if err := c12RunDiffCase(c, run, &c12Case{old: o, nw: nw, partitions: cr.Range(0, 3), class: "big/add-longer-than-copy-buffer"}); err != nil {
+		if err := c12RunDiffCase(c, run, &c12Case{old: o, nw: nw, partitions: cr.Range(0, 3), class: "big/add-longer-than-copy-buffer", deadline: 600}); err != nil {
 			return err
 		}
 	}
 	// MiB-sized: several scan blocks of 128 KiB, oracle only
-	if c.Thorough() {
-		n = c.N(0, 24)
+	if c.Tier != "quick" {
+		n = c12N(c, 0, 24, 4)
 		for i := 0; i < n; i++ {
 			cr := r.Fork()
 			sz := []int{128*1024 - 1, 128 * 1024, 128*1024 + 1, 300 * 1024, 1 << 20, 3<<20 + 12345}[cr.Intn(6)]
@@ -685,7 +739,7 @@ func c12DiffCases(c *Ctx, run *c12Runner) error {
 				t = "unrelated"
 			}
 			cs := &c12Case{old: o, nw: nw, partitions: cr.Range(0, 16), concurrency: cr.Range(-1, 4), procs: []int{0, 1, 2, 8}[cr.Intn(4)],
-				reuse: cr.Chance(1, 3), class: "big/" + a + "/" + c12ClassHead(t), group: ""}
+				reuse: cr.Chance(1, 3), class: "big/" + a + "/" + c12ClassHead(t), group: "", deadline: 900}
 			if err := c12RunDiffCase(c, run, cs); err != nil {
 				return err
 			}
@@ -699,7 +753,17 @@ func c12BigContent(r *lib.Rng, n int) ([]byte, string) {
 	case 0:
 		return r.Bytes(n), "entropy"
 	case 1:
-		return c12Periodic(r, n), "periodic"
+		// pages drawn from a small pool: long repeats, but no MiB-scale periodicity (the suffix search
+		// compares common prefixes byte by byte: minutes on a MiB of one repeated byte)
+		pages := make([][]byte, 12)
+		for i := range pages {
+			pages[i] = r.Bytes(r.Range(512, 4096))
+		}
+		b := make([]byte, 0, n+4096)
+		for len(b) < n {
+			b = append(b, pages[r.Intn(len(pages))]...)
+		}
+		return b[:n], "pages"
 	default:
 		// text-like: words from a small dictionary
 		words := make([][]byte, 40)
@@ -727,7 +791,7 @@ func c12ClassHead(s string) string {
 
 func c12PatchCases(c *Ctx, run *c12Runner) error {
 	r := c.Rng.Fork()
-	n := c.N(250, 3000)
+	n := c12N(c, 250, 3000, 2000)
 	for i := 0; i < n; i++ {
 		cr := r.Fork()
 		var old []byte
